@@ -15,7 +15,7 @@ FORMAT_RULES = "LT01,LT02,LT03,LT04,LT05,LT06,LT07,LT08,LT09,LT10,LT11,LT12,LT13
 
 
 def run(ctx, coq_ok):
-    js = fixjobs.jobs(ctx, ["layout", "core", "all", FORMAT_RULES], ("reparse", "events"))
+    js = fixjobs.jobs(ctx, ["layout", "core", "all", FORMAT_RULES, "convention", "structure", "CV11,CP01", "ambiguous,aliasing,references"], ("reparse", "events"))
     traces = []
     nchanged = 0
     for (d, tpl, style, label, src, rules, extra, want), st, res in corpus.pmap("harness.fixcheck", "fix_case", js):
@@ -36,7 +36,7 @@ def run(ctx, coq_ok):
         if bad:
             ctx.violation("fixed-unparsable", "a cleanly parsing file has %s errors after fixing [%s, rules %s]" % (sorted(set(bad)), d, rules[:12]),
                           {"input": {"dialect": d, "label": label, "sql": src, "rules": rules}, "fixed": res["fixed"]},
-                          attrs={"errors": ",".join(sorted(set(bad))), "double_sign": any(p in res["fixed"] and p not in src for p in ("--", "~~"))})
+                          attrs={"errors": ",".join(sorted(set(bad))), "double_sign": any(p in res["fixed"] and p not in src for p in ("--", "~~")), "lt01": "LT01" in res["codes0"]})
     ctx.coverage_extra["files_changed_by_fix"] = nchanged
     # ---------- trace validation of the adoption gate
     if coq_ok and traces:
